@@ -798,3 +798,44 @@ func returnedValue(r *ssa.Return, idx int) ssa.Value {
 	}
 	return v
 }
+
+// resolveCell looks through a load of a local cell that has exactly one store
+// (a parameter or variable captured by a closure) to the stored value.
+func resolveCell(v ssa.Value) ssa.Value {
+	ld, ok := v.(*ssa.UnOp)
+	if !ok || ld.Op != token.MUL {
+		return v
+	}
+	cell, ok := ld.X.(*ssa.Alloc)
+	if !ok || cell.Referrers() == nil {
+		return v
+	}
+	var only ssa.Value
+	n := 0
+	for _, r := range *cell.Referrers() {
+		if st, isSt := r.(*ssa.Store); isSt && st.Addr == cell {
+			n++
+			only = st.Val
+		}
+	}
+	if n == 1 {
+		return only
+	}
+	return v
+}
+
+// sameValue: identical SSA value, or two loads of the same cell / free variable.
+func sameValue(a, b ssa.Value) bool {
+	if a == b {
+		return true
+	}
+	la, ok1 := a.(*ssa.UnOp)
+	lb, ok2 := b.(*ssa.UnOp)
+	if ok1 && ok2 && la.Op == token.MUL && lb.Op == token.MUL && la.X == lb.X {
+		switch la.X.(type) {
+		case *ssa.FreeVar, *ssa.Alloc:
+			return true
+		}
+	}
+	return resolveCell(a) == resolveCell(b) && resolveCell(a) != a
+}
